@@ -471,7 +471,7 @@ def load_props_meta():
 
 
 def select(hs, prop, tier, only, seed):
-    sel = [h for h in hs if h["prop"] == prop]
+    sel = [h for h in hs if prop in (h["prop"] or "").split(",")]
     if tier == "quick":
         sel = [h for h in sel if h["tier"] == "quick"]
     if only:
